@@ -198,16 +198,19 @@ def make_species(symbols, coords, freqs, freq_units=None):
     return m
 
 
-def run_thermo(symbols, coords, freqs, kw, via="function"):
-    """-> (h_cont, g_cont, species, sn used).  kw: temp, ss, lfm_method, sn?, freq_shift?, w0?, alpha?"""
+def run_thermo(symbols, coords, freqs, kw, via="function", freq_units=None):
+    """-> (h_cont, g_cont, species).  kw: temp, ss, lfm_method, sn?, freq_shift?, w0?, alpha?
+    via: "function" = calculate_thermo_cont(species, **kw); "calc_thermo" / "calc_g_cont" / "calc_h_cont" = the public
+    Species methods (a zero model Hessian is attached so that no electronic-structure code is started; the frequencies are
+    the given ones).  freq_units: unit the species' Frequency values carry (default cm-1)."""
     from autode.thermochemistry.igm import calculate_thermo_cont
-    sp = make_species(symbols, coords, freqs)
-    if via == "method":
-        sp.hessian = np.zeros((3 * len(symbols), 3 * len(symbols)))
-        sp.calc_thermo(**kw)
-    else:
+    sp = make_species(symbols, coords, freqs, freq_units=freq_units)
+    if via == "function":
         calculate_thermo_cont(sp, **kw)
-    return float(sp.h_cont), float(sp.g_cont), sp
+    else:
+        sp.hessian = np.zeros((3 * len(symbols), 3 * len(symbols)))
+        getattr(sp, "calc_thermo" if via == "method" else via)(**kw)
+    return float(sp.h_cont.to("Ha")), float(sp.g_cont.to("Ha")), sp
 
 
 def dist_matrix(c):
@@ -418,32 +421,69 @@ def eval_identities(case):
 
 
 def eval_units(case):
-    """temp / freq_shift / w0 as plain numbers or unit-carrying values; function and method entry points."""
+    """temp / freq_shift / w0 as plain numbers or unit-carrying values (default and non-default units), through
+    calculate_thermo_cont AND the public entry points Species.calc_thermo / calc_g_cont / calc_h_cont (incl. the default
+    temperature); species frequencies carried in cm-1 or Hz.  All must give the same h_cont / g_cont (1e-12 Ha)."""
     from autode.values import Frequency, Temperature
     kw = dict(case["kw"], sn=case["sigma"])
     sym, co, fr = case["symbols"], case["coords"], case["freqs"]
     T = float(kw["temp"])
     fails = []
+    tol = 1e-12
     tag = f"{case['molecule']} ({kw}): "
+    C_HZ = 29979245800.0
+
+    def compare(key, label, ref, fn):
+        try:
+            got = fn()[:2]
+        except Exception as e:  # noqa
+            fails.append((key, tag + f"{label}: raised {type(e).__name__}: {e}; plain numbers give {ref}"))
+            return
+        if not (abs(got[0] - ref[0]) <= tol and abs(got[1] - ref[1]) <= tol):
+            fails.append((key, tag + f"{label}: (H,G) = {got} but plain numbers in the default units give {ref}"))
+
     ref = run_thermo(sym, co, fr, kw)[:2]
-    variants = [("Temperature(T,'K')", dict(kw, temp=Temperature(T, units="K"))),
-                ("Temperature(T-273.15,'celsius')", dict(kw, temp=Temperature(T - 273.15, units="celsius")))]
-    for name in ("freq_shift", "w0"):
-        if name in kw:
-            x = float(kw[name])
-            variants.append((f"{name}=Frequency(x,'cm-1')", dict(kw, **{name: Frequency(x, units="cm-1")})))
-            variants.append((f"{name}=Frequency(x*c,'hz')", dict(kw, **{name: Frequency(x * 29979245800.0, units="hz")})))
-    for label, k2 in variants:
-        got = run_thermo(sym, co, fr, k2)[:2]
-        if abs(got[0] - ref[0]) > 1e-11 or abs(got[1] - ref[1]) > 1e-11:
-            fails.append(("calculate_thermo_cont|number-vs-unit-value", tag + f"{label}: (H,G) = {got} but plain numbers give {ref}"))
+    entries = ["function"] + (["calc_thermo", "calc_g_cont", "calc_h_cont"] if len(sym) > 1 else [])
+    for via in entries:
+        key = "calculate_thermo_cont|number-vs-unit-value" if via == "function" else f"Species.{via}|number-vs-unit-value"
+        tvars = [("temp=float K", T), ("temp=Temperature(T,'K')", Temperature(T, units="K")),
+                 ("temp=Temperature(T-273.15,'celsius')", Temperature(T - 273.15, units="celsius")),
+                 ("temp=Temperature(T-273.15,'C')", Temperature(T - 273.15, units="C"))]
+        if via in ("function", "calc_thermo"):
+            pass
+        else:
+            tvars = tvars[:3]
+        for label, tv in tvars:
+            compare(key, f"{via}, {label}", ref, lambda tv=tv, via=via: run_thermo(sym, co, fr, dict(kw, temp=tv), via=via))
+        for name in ("freq_shift", "w0"):
+            if name in kw and via in ("function", "calc_thermo"):
+                x = float(kw[name])
+                for label, fv in ((f"{name}=Frequency(x,'cm-1')", Frequency(x, units="cm-1")),
+                                  (f"{name}=Frequency(x*c,'hz')", Frequency(x * C_HZ, units="hz"))):
+                    compare(key, f"{via}, {label}", ref, lambda fv=fv, via=via, name=name: run_thermo(sym, co, fr, dict(kw, **{name: fv}), via=via))
     if len(sym) > 1:
-        km = {k: v for k, v in kw.items()}
-        got = run_thermo(sym, co, fr, km, via="method")[:2]
-        got2 = run_thermo(sym, co, fr, dict(km, temp=Temperature(T, units="K")), via="method")[:2]
-        if max(abs(got[0] - ref[0]), abs(got[1] - ref[1]), abs(got2[0] - ref[0]), abs(got2[1] - ref[1])) > 1e-11:
-            fails.append(("Species.calc_thermo|number-vs-unit-value", tag + f"calc_thermo(temp=float) {got}, calc_thermo(temp=Temperature) {got2}, "
-                          f"calculate_thermo_cont {ref}"))
+        # freezing point and below: 0 C and negative Celsius through the public method
+        for Tk in (273.15, 250.0):
+            r2 = run_thermo(sym, co, fr, dict(kw, temp=Tk))[:2]
+            for via in ("function", "calc_thermo"):
+                key = "calculate_thermo_cont|number-vs-unit-value" if via == "function" else f"Species.{via}|number-vs-unit-value"
+                compare(key, f"{via}, temp=Temperature({Tk - 273.15},'celsius') vs {Tk} K", r2,
+                        lambda Tk=Tk, via=via: run_thermo(sym, co, fr, dict(kw, temp=Temperature(Tk - 273.15, units="celsius")), via=via))
+                compare(key, f"{via}, temp=Temperature({Tk},'K') vs {Tk} K", r2,
+                        lambda Tk=Tk, via=via: run_thermo(sym, co, fr, dict(kw, temp=Temperature(Tk, units="K")), via=via))
+        # the default temperature of the public method is 298.15 K
+        kd = {k: v for k, v in kw.items() if k != "temp"}
+        r3 = run_thermo(sym, co, fr, dict(kd, temp=298.15))[:2]
+        for via in ("function", "calc_thermo", "calc_g_cont"):
+            compare(f"Species.{via}|default-temperature" if via != "function" else "calculate_thermo_cont|default-temperature",
+                    f"{via} without temp vs temp=298.15", r3, lambda via=via: run_thermo(sym, co, fr, kd, via=via))
+        # the species' own frequencies carried in Hz instead of cm-1 (the interpolating methods guard against it by assertion)
+        if kw["lfm_method"] in ("igm", "truhlar") and fr is not None:
+            fr_hz = [f * C_HZ for f in fr]
+            for via in ("function", "calc_thermo"):
+                compare("calculate_thermo_cont|frequency-units" if via == "function" else "Species.calc_thermo|frequency-units",
+                        f"{via}, species frequencies as Frequency(f*c,'hz')", ref,
+                        lambda via=via: run_thermo(sym, co, fr_hz, kw, via=via, freq_units="hz"))
     return fails
 
 
